@@ -84,6 +84,7 @@ func VerifH_C08_O4s_combine_schedules() {
 func v08fCombine(sched int) {
 	if sched > 0 {
 		verif.Schedules(sched)
+		verif.Races(true)
 	} else {
 		verif.Goroutines(true)
 	}
